@@ -228,7 +228,7 @@ def _shrake_rupley_by_evaluation(ctx, cf):
         return ts, r, rec, traj
     n_cfg = 0
     for mode in ("atom", "residue"):
-        for ai in (None, [1, 3], []):
+        for ai in ((None, [1, 3], []) if ctx.tier != "thorough" else (None, [1, 3], [], [0], [4], [2, 3], [0, 1, 2, 3, 4], [3, 1])):
             for cr in (None, {"C": var("newC")}):
                 if ai == [] and cr:
                     continue
@@ -293,7 +293,7 @@ def _shrake_rupley_by_evaluation(ctx, cf):
             ctx.holds("C13-R4", fn, SP, q, what, "numpy raises: %s" % e)      # unique(mapping) == arange(max + 1) with arrays of different lengths
         except PUnsupported as e:
             ctx.undecided("C13-R4", fn, SP, q, what, "not evaluable: %s" % e)
-    if n_cfg < 10:
+    if n_cfg < (10 if ctx.tier != "thorough" else 30):
         ctx.undecided("C13-R4", fn, SP, q, "configurations", "only %d of 10 configurations evaluated" % n_cfg)
 
 
